@@ -11,7 +11,8 @@
 EXTENDS Paths, Json
 
 DirKinds == {"unset", "rel", "nested", "abs"}
-Shapes   == {"direct", "helper1", "helper3", "closure", "nontest", "nontest2", "deep40", "deep100", "subtest", "subtest2"}
+Shapes   == {"direct", "helper1", "helper3", "closure", "nontest", "nontest2", "deep40", "deep100", "subtest", "subtest2",
+             "otherfile"}   \* through a helper declared in another *_test.go file of the package
 Variants == {"", "trimpath", "deep", "deep-trimpath"}
 Cwds     == {"pkg", "foreign"}
 APIs     == {"snapshot", "json", "yaml", "ssnap", "sjson"}
@@ -27,9 +28,11 @@ Cells == {c \in [dir : DirKinds, filename : {"", "custom"}, ext : {"", ".txt"}, 
 DirVal(k) == CASE k = "unset" -> "" [] k = "rel" -> "relsnaps" [] k = "nested" -> "nested/rel/dir" [] OTHER -> "/ABS/abs/snaps"
 CfgOf(c)  == [dir |-> DirVal(c.dir), filename |-> c.filename, ext |-> c.ext]
 TDirOf(c) == IF c.variant \in {"deep", "deep-trimpath"} THEN "/PKG/sub/deep" ELSE "/PKG"
+\* the calling test file is the innermost *_test.go frame
+TBaseOf(c) == IF c.shape = "otherfile" THEN "other_test" ELSE "main_test"
 TestOf(c) == CASE c.shape = "subtest" -> "TestA/x" [] c.shape = "subtest2" -> "TestA/x/y" [] OTHER -> "TestA"
 Loc(c) == IF IsStandalone(c.api) THEN StandalonePath(CfgOf(c), TDirOf(c), TestOf(c), c.api, 1)
-          ELSE MultiPath(CfgOf(c), TDirOf(c), "main_test")
+          ELSE MultiPath(CfgOf(c), TDirOf(c), TBaseOf(c))
 
 Init == cell \in Cells /\ emitted = FALSE
 Next == /\ ~emitted /\ PrintT("@@" \o ToJson([cell |-> cell, loc |-> Loc(cell)]))
@@ -40,7 +43,7 @@ Spec == Init /\ [][Next]_vars
 ShapeCwdTrimpathIrrelevant ==
   \A c2 \in Cells :
      (c2.dir = cell.dir /\ c2.filename = cell.filename /\ c2.ext = cell.ext /\ c2.api = cell.api
-      /\ TDirOf(c2) = TDirOf(cell) /\ TestOf(c2) = TestOf(cell)) => Loc(c2) = Loc(cell)
+      /\ TDirOf(c2) = TDirOf(cell) /\ TestOf(c2) = TestOf(cell) /\ TBaseOf(c2) = TBaseOf(cell)) => Loc(c2) = Loc(cell)
 \* an absolute Dir wins over the test file's directory; otherwise the location is below it
 DirRule == IF cell.dir = "abs" THEN HasPrefix(Loc(cell), "/ABS/abs/snaps/")
            ELSE HasPrefix(Loc(cell), TDirOf(cell) \o "/")
@@ -49,6 +52,6 @@ NameRule ==
   /\ IsStandalone(cell.api) => StrContains(Loc(cell), "_1.snap")
   /\ (cell.api = "sjson" /\ cell.ext = "") => HasSuffix(Loc(cell), ".snap.json")
   /\ cell.ext # "" => HasSuffix(Loc(cell), ".snap" \o cell.ext)
-  /\ (~IsStandalone(cell.api) /\ cell.filename = "") => StrContains(Loc(cell), "/main_test.snap")
+  /\ (~IsStandalone(cell.api) /\ cell.filename = "") => StrContains(Loc(cell), "/" \o TBaseOf(cell) \o ".snap")
   /\ (IsStandalone(cell.api) /\ cell.filename = "" /\ cell.shape = "subtest2") => StrContains(Loc(cell), "/TestA_x_y_1.snap")
 =============================================================================
